@@ -57,6 +57,19 @@ def run(chk):
             for m in (0, 4, 4 | 64):
                 lines.append(trans.case_line("T", other | m, inp, outlen, presence=1))
         rs = trans.run_cases(exe, tl, lines, exact=1, env=env, timeout=400)
+        # ucBrl without dotsIO has no effect: the result is the one of the same call without the bit
+        ulines = [trans.case_line("T", other | 64, inp, outlen, presence=1) for inp, other, outlen in base]
+        us = trans.run_cases(exe, tl, ulines, exact=1, env=env, timeout=400)
+        for j, ((inp, other, outlen), u) in enumerate(zip(base, us)):
+            r0 = rs[3 * j]
+            if u.crash or r0.crash or u.hang is not None or r0.hang is not None:
+                continue
+            su = (u.ret, u.inlen, u.outlen, tuple(u.out[:max(u.outlen, 0)])) if u.ret == 1 else (u.ret,)
+            s0 = (r0.ret, r0.inlen, r0.outlen, tuple(r0.out[:max(r0.outlen, 0)])) if r0.ret == 1 else (r0.ret,)
+            chk.tally("ucBrl_without_dotsIO_checked")
+            if su != s0:
+                chk.violation("ucbrl-alone-has-an-effect", "ucBrl without dotsIO changes the result: %s vs %s" % (str(su)[:200], str(s0)[:200]),
+                              dict(table_list=tl, input=inp, other_mode_bits=other, outlen=outlen, case_lines=[lines[3 * j], ulines[j]]))
         dlines, dmeta, blines, bmeta = [], [], [], []
         for j, (inp, other, outlen) in enumerate(base):
             r0, r4, ru = rs[3 * j], rs[3 * j + 1], rs[3 * j + 2]
@@ -98,6 +111,15 @@ def run(chk):
             else:
                 chk.tally("default_output_unmapped_cell")
             chk.cov["traces_validated_against_impl"] += 1
+        # ... and of arbitrary character strings, including characters the display table does not map
+        for _ in range(6):
+            chars = [c for c in safety.gen_input(r, 20) if c] or [97]
+            if r.chance(0.5):
+                chars[r.below(len(chars))] = r.choice([0x4e2d, 0x3b1, 0x20ac, 0xfffe, 0x2801, 0xe9, 127, 1])
+            ol = r.choice([4 * len(chars) + 10, r.range(1, len(chars) + 1)])
+            bo = r.choice([0, 0, 128, 256])
+            blines += [trans.case_line("B", bo, chars, ol), trans.case_line("C", 0, chars, len(chars)), trans.case_line("C", 64, chars, len(chars))]
+            bmeta.append((dict(table_list=tl, arbitrary_characters=True), chars, ol, bo))
         if dlines:
             ds = trans.run_cases(exe, tl, dlines, exact=1, env=env, timeout=400)
             for (case, out0), d in zip(dmeta, ds):
